@@ -35,6 +35,7 @@ MACROS = [
     ("fmt8bit", "XMP_FORMAT_8BIT"), ("fmtUnsigned", "XMP_FORMAT_UNSIGNED"), ("fmtMono", "XMP_FORMAT_MONO"),
     ("anticlickShift", "ANTICLICK_SHIFT"),
     ("sizeofInt16", "sizeof(int16)"), ("sizeofInt32", "sizeof(int32)"),
+    ("errorState", "XMP_ERROR_STATE"), ("statePlaying", "XMP_STATE_PLAYING"),
 ]
 
 _ALLOWED = (ast.Expression, ast.BinOp, ast.UnaryOp, ast.Constant, ast.Add, ast.Sub, ast.Mult, ast.FloorDiv,
@@ -138,6 +139,26 @@ def shape_facts(repo, vals, pre):
         except Exception:
             lo = hi = None
     facts["ampMin"], facts["ampMax"] = lo, hi
+    # xmp_set_tempo_factor (control.c): the acceptance test of the new factor.  Recognised shape:
+    #   val *= N; ticksize = libxmp_mixer_get_ticksize(s->freq, val, m->rrate, p->bpm);
+    #   if (ticksize < 0 || ticksize > (CAP)) return -1;   m->time_factor = val;
+    # CAP must be a constant expression (macros of xmp.h only): a bound that mentions the output format or any
+    # other variable is *not* recognised (fact `none`, the theorem tying the model's bound to the code fails).
+    body = function_body(ctl, "xmp_set_tempo_factor") or ""
+    tfcap = tfscale = tfargs = None
+    m = re.search(r"ticksize\s*<\s*0\s*\|\|\s*ticksize\s*>\s*\(?([^{};]+?)\)?\s*\)\s*\{?\s*return\s*-\s*1\s*;", body, re.S)
+    if m:
+        try:
+            tfcap = c_int_eval(m.group(1), {"XMP_MAX_FRAMESIZE": vals["maxFramesize"]})
+        except Exception:
+            tfcap = None
+    m = re.search(r"\bval\s*\*=\s*(\d+)\s*;", body)
+    if m:
+        tfscale = int(m.group(1))
+    if re.search(r"ticksize\s*=\s*libxmp_mixer_get_ticksize\s*\(\s*s->freq\s*,\s*val\s*,\s*m->rrate\s*,\s*p->bpm\s*\)\s*;", body) and \
+            len(re.findall(r"\bticksize\s*[-+*/|&^]?=[^=]", body)) == 1 and "format" not in body:
+        tfargs = 1
+    facts["tempoFactorCap"], facts["tempoFactorScale"], facts["tempoFactorArgs"] = tfcap, tfscale, tfargs
     return facts
 
 
@@ -162,7 +183,7 @@ def generate(repo=None):
            "include/xmp.h, src/control.c of the libxmp working tree — do not edit. -/",
            "namespace Xmp.Gen.MixerConsts", ""]
     nat_names = {"downmixShift", "maxFramesize", "minSrate", "maxSrate", "minBpm", "fmt8bit", "fmtUnsigned",
-                 "fmtMono", "anticlickShift", "sizeofInt16", "sizeofInt32"}
+                 "fmtMono", "anticlickShift", "sizeofInt16", "sizeofInt32", "errorState", "statePlaying"}
     for name, cexpr in MACROS:
         v = vals[name]
         if name in nat_names and v >= 0:
@@ -184,9 +205,13 @@ def generate(repo=None):
         "ticksizeCapGuard": "bound in the guard `s->ticksize > (…)` of libxmp_mixer_prepare",
         "ticksizeCapAssigned": "value assigned to s->ticksize when the guard fires",
         "ampMin": "lowest value xmp_set_player(XMP_PLAYER_AMP) accepts", "ampMax": "highest value it accepts",
+        "tempoFactorCap": "bound CAP of `if (ticksize < 0 || ticksize > (CAP)) return -1;` in xmp_set_tempo_factor (constant expression only)",
+        "tempoFactorScale": "N of `val *= N;` in xmp_set_tempo_factor",
+        "tempoFactorArgs": "1 when the tick size tested by xmp_set_tempo_factor is exactly `libxmp_mixer_get_ticksize(s->freq, val, m->rrate, p->bpm)`, "
+                           "assigned once, and the function does not mention the output format",
     }
     for k in ("shift8Amp0", "shift8Amp1", "shift16Amp0", "shift16Amp1", "offs8Unsigned", "offs16Unsigned", "ampMin", "ampMax",
-              "ticksizeCapGuard", "ticksizeCapAssigned"):
+              "ticksizeCapGuard", "ticksizeCapAssigned", "tempoFactorCap", "tempoFactorScale", "tempoFactorArgs"):
         v = facts[k]
         out.append("/-- %s (recognised from the code shape; `none` = not recognised) -/\ndef %s : Option Int := %s" % (
             doc[k], k, "none" if v is None else "some %s" % lean_int(v)))
